@@ -1,6 +1,6 @@
 (* Property C03 -- SIMD-intrinsic builds return the same results as the pure C++ path.
    For every instruction-set level L in {SSE2, SSE3, SSSE3, SSE4.1, SSE4.2, AVX, AVX2, AVX2+FMA} and for GLM_FORCE_QUAT_DATA_WXYZ,
-   every entry of the catalogue tools/trace/tr_C03.cpp (160 operations on aligned vec4 / vec3 / mat4 / mat3 / quat, dvec4 / dvec3 / dquat and ivec4 / uvec4 / ivec3: operators,
+   every entry of the catalogue tools/trace/tr_C03.cpp (171 operations on aligned vec4 / vec3 / mat4 / mat3 / quat, dvec4 / dvec3 / dquat and ivec4 / uvec4 / ivec3: operators,
    comparisons, common, exponential, geometric, matrix and quaternion functions, lowp variants) traced through GLM's intrinsic
    kernels (simd_shim.hpp) means, component by component and for all real inputs of its domain, what the same entry traced through
    the generic code means.  Identical trees (up to the operand order of + and *, and fma = a*b+c) are decided by computation:
@@ -43,8 +43,8 @@ Proof. vm_compute. reflexivity. Qed.
 (* and the lowp entries do: the statement above is not vacuous *)
 Example C03_lowp_entries_do_approximate : existsb (fun e => andb (is_lowp_name (fst e)) (negb (approx_free_tree (snd e)))) Gen_C03_sse2.catalogue = true.
 Proof. vm_compute. reflexivity. Qed.
-(* the statement is about all 160 entries (35 of them integer), none untraceable *)
-Theorem C03_catalogue_size : List.length names = 160%nat. Proof. reflexivity. Qed.
+(* the statement is about all 171 entries (35 of them integer), none untraceable *)
+Theorem C03_catalogue_size : List.length names = 171%nat. Proof. reflexivity. Qed.
 (* non-vacuity: the premises of the domain-restricted entries are satisfiable, and a compared value is defined *)
 Example C03_domain_inhabited : D_big (fun _ _ _ => 1%R) /\ D_round (fun _ _ _ => 1%R) /\ D_mod (fun _ _ _ => 1%R) /\ D_nonneg (fun _ _ _ => 1%R).
 Proof.
